@@ -144,15 +144,25 @@ class PathRules:
             # the refusal builds an error
             ss = self.sites(name, lambda s: sname(s.path) == "exists")
             has_refusal = False
-            for cb in self.inter.code_bodies(b):
+            bodies_ = list(self.inter.code_bodies(b))
+            # private helpers of the path type called from here (e.g. an extracted "ensure destination is free")
+            helpers_ = []
+            for cb in bodies_:
+                for s_ in self.inter.sites(cb):
+                    hb = self.inter.local_callee(s_)
+                    if hb is not None and hb.vis != "pub" and hb.impl and hb.impl["trait"] is None and \
+                            hb.impl["self_ty"] == w.path_ty and hb.id != b.id:
+                        helpers_.extend(self.inter.code_bodies(hb))
+            for cb in bodies_ + helpers_:
                 tr = get_tracer(self.facts, cb)
+                is_helper = cb in helpers_
                 for blk in cb.blocks:
                     if blk.cleanup:
                         continue
                     for st in blk.stmts:
                         if st.kind == "assign" and st.lhs.local == 0 and st.rv.kind == "agg" and st.rv.agg.get("variant") == "Err":
                             gs = self.guards(cb, blk.idx)
-                            if self.g_exists(gs, lambda t: self.is_arg(t, 1), True):
+                            if self.g_exists(gs, (lambda t: t[0] == "arg") if is_helper else (lambda t: self.is_arg(t, 1)), True):
                                 has_refusal = True
             if name == "copy_dir" and not has_refusal:
                 has_refusal = any(sname(s.path) == "create_dir" for cb in self.inter.code_bodies(b) for s in self.inter.sites(cb)
